@@ -83,12 +83,10 @@ def timeframeDefs : List (Str × Int) :=
   [(['S'], second), (['S','e','c'], second), (['T'], minute), (['M','i','n'], minute),
    (['H'], hour), (['D'], day), (['W'], week), (['Y'], year)]
 
-/-- `Timeframes` (note `4H` precedes `2H`) -/
+/-- `utils.Timeframes`, in SOURCE ORDER: regenerated from /repo on every run
+    (`Mkts.Extracted.utils_Timeframes`, factgen `tables`) -/
 def timeframes : List (Str × Int) :=
-  [(['1','S','e','c'], second), (['1','0','S','e','c'], 10 * second), (['3','0','S','e','c'], 30 * second),
-   (['1','M','i','n'], minute), (['5','M','i','n'], 5 * minute), (['1','5','M','i','n'], 15 * minute),
-   (['3','0','M','i','n'], 30 * minute), (['1','H'], hour), (['4','H'], 4 * hour), (['2','H'], 2 * hour),
-   (['1','D'], day)]
+  Mkts.Extracted.utils_Timeframes.map (fun p => (p.1.toList, p.2))
 
 /-! ## Timeframe -/
 
